@@ -133,6 +133,117 @@ func c07Round(w *ndWriter, seed int64, C, B, P, Cn, n int, loaderUs int) int {
 	return n2
 }
 
+// ---- hook-level recording for Trace_BQueueHook.tla: every hook point of the queue under test is logged with the role of
+// the goroutine and, inside q.lock, the channel length and the pool count; the harness adds inv/res lines.
+func c07HookRound(w *ndWriter, seed int64, C, B, P, Cn, n int, loaderUs int, first bool) int {
+	rng := rand.New(rand.NewSource(seed))
+	rec := &recorder{}
+	var roles sync.Map // goroutine id -> role
+	var ops sync.Map   // role -> current op
+	var q *fpgo.BufferedChannelQueue[int]
+	var cur atomic.Value
+	inLock := map[string]bool{"bq.offer.locked": true, "bq.offer.done": true, "bq.loader.locked": true, "bq.loader.polled": true, "bq.loader.unlocking": true}
+	fpgo.VerifHook = func(point string, obj interface{}) {
+		qq, _ := cur.Load().(*fpgo.BufferedChannelQueue[int])
+		if qq == nil || obj != interface{}(qq) || point == "bq.freenode.locked" {
+			return
+		}
+		role := "loader"
+		if len(point) < 10 || point[:10] != "bq.loader." {
+			r, ok := roles.Load(gid())
+			if !ok {
+				return
+			}
+			role = r.(string)
+		}
+		e := E{"ev": "hook", "pt": point, "thr": role, "op": "-", "v": 0, "r": "-", "chl": -1, "pool": -1}
+		if o, ok := ops.Load(role); ok {
+			e["op"] = o
+		}
+		if inLock[point] {
+			chl, pool := qq.VerifSnapshotLocked()
+			e["chl"], e["pool"] = chl, len(pool)
+		}
+		rec.ev(e)
+		perturbHook(point, obj)
+	}
+	q = fpgo.NewBufferedChannelQueue[int](C, B, 2).SetLoadFromPoolDuration(time.Duration(loaderUs) * time.Microsecond)
+	cur.Store(q)
+	rec.ev(E{"ev": "reset", "thr": "-", "op": "-", "v": 0, "r": "-", "c": C, "b": B, "pt": "-", "chl": 0, "pool": 0})
+	line := func(ev, thr, op string, v int, r string) {
+		rec.ev(E{"ev": ev, "thr": thr, "op": op, "v": v, "r": r, "pt": "-", "chl": -1, "pool": -1})
+	}
+	consume := func(thr string, r *rand.Rand) {
+		switch r.Intn(3) {
+		case 0:
+			ops.Store(thr, "poll")
+			line("inv", thr, "poll", 0, "-")
+			v, err := q.Poll()
+			line("res", thr, "poll", v, qerr(err))
+		case 1:
+			ops.Store(thr, "taketimeout")
+			line("inv", thr, "taketimeout", 0, "-")
+			v, err := q.TakeWithTimeout(time.Duration(50+r.Intn(200)) * time.Microsecond)
+			line("res", thr, "taketimeout", v, qerr(err))
+		default:
+			ops.Store(thr, "recv")
+			line("inv", thr, "recv", 0, "-")
+			select {
+			case v := <-q.GetChannel():
+				line("res", thr, "recv", v, "ok")
+			case <-time.After(time.Duration(50+r.Intn(150)) * time.Microsecond):
+				line("res", thr, "recv", 0, "timeout")
+			}
+		}
+	}
+	var wg sync.WaitGroup
+	for p := 0; p < P; p++ {
+		wg.Add(1)
+		go func(p int, s int64) {
+			defer wg.Done()
+			r := rand.New(rand.NewSource(s))
+			thr := fmt.Sprintf("p%d", p+1)
+			roles.Store(gid(), thr)
+			for i := 1; i <= n; i++ {
+				v := (p+1)*1000 + i
+				ops.Store(thr, "offer")
+				line("inv", thr, "offer", v, "-")
+				err := q.Offer(v)
+				line("res", thr, "offer", v, qerr(err))
+				if r.Intn(3) == 0 {
+					time.Sleep(time.Duration(r.Intn(20)) * time.Microsecond)
+				}
+			}
+		}(p, rng.Int63())
+	}
+	for c := 0; c < Cn; c++ {
+		wg.Add(1)
+		go func(c int, s int64) {
+			defer wg.Done()
+			r := rand.New(rand.NewSource(s))
+			thr := fmt.Sprintf("c%d", c+1)
+			roles.Store(gid(), thr)
+			for i := 0; i < n; i++ {
+				consume(thr, r)
+			}
+		}(c, rng.Int63())
+	}
+	wg.Wait()
+	if C >= 1 {
+		roles.Store(gid(), "c1")
+		r := rand.New(rand.NewSource(seed))
+		deadline := time.Now().Add(3 * time.Second)
+		for q.Count() > 0 && time.Now().Before(deadline) {
+			consume("c1", r)
+		}
+	}
+	time.Sleep(time.Duration(2*loaderUs+200) * time.Microsecond) // let the loader finish its pass: its hook lines belong to this round
+	cur.Store((*fpgo.BufferedChannelQueue[int])(nil))
+	n2 := rec.flush(w)
+	q.Close()
+	return n2
+}
+
 // plain ChannelQueue: capacity C, no overflow part
 func c07ChanRound(w *ndWriter, seed int64, C, P, Cn, n int) int {
 	rng := rand.New(rand.NewSource(seed))
@@ -230,8 +341,30 @@ func c07Main(args []string) error {
 		}
 		fmt.Printf("{\"files\":[%s],\"events\":%d,\"rounds\":%d}\n", quoteJoin(files), events, rounds)
 		return nil
+	case "hooktrace":
+		prefix := flagVal(args, "out", "c07.hook")
+		rounds := flagInt(args, "rounds", 20)
+		seed := int64(envInt("VERIF_SEED", 1))
+		cfgs := [][2]int{{1, 1}, {1, 0}, {2, 1}, {1, 2}, {2, 2}, {3, 1}, {1, 3}}
+		var files []string
+		events := 0
+		for ci, c := range cfgs {
+			name := fmt.Sprintf("%s.c%db%d.ndjson", prefix, c[0], c[1])
+			w, err := newNDWriter(name)
+			if err != nil {
+				return err
+			}
+			for r := 0; r < rounds; r++ {
+				events += c07HookRound(w, seed*7919+int64(ci*1000+r), c[0], c[1], 1+r%3, 1+(r/3)%3, 3, []int{0, 1, 300}[r%3], r == 0)
+			}
+			w.close()
+			files = append(files, name)
+		}
+		fpgo.VerifHook = nil
+		fmt.Printf("{\"files\":[%s],\"events\":%d,\"rounds\":%d}\n", quoteJoin(files), events, rounds*len(cfgs))
+		return nil
 	}
-	return fmt.Errorf("c07: record")
+	return fmt.Errorf("c07: record|hooktrace")
 }
 
 func quoteJoin(xs []string) string {
